@@ -511,20 +511,24 @@ impl<'a, F: Field> Sub<&'a SparsePolynomial<F>> for &DensePolynomial<F> {
             self.clone()
         } else {
             let mut result = self.clone();
+            // The degree of `self`, read before any coefficient is modified.
+            let degree = result.degree();
             // If `other` has higher degree than `self`, create a dense vector
             // storing the upper coefficients of the subtraction
-            let mut upper_coeffs = match other.degree() > result.degree() {
-                true => vec![F::zero(); other.degree() - result.degree()],
+            let mut upper_coeffs = match other.degree() > degree {
+                true => vec![F::zero(); other.degree() - degree],
                 false => Vec::new(),
             };
             for (pow, coeff) in other.iter() {
-                if *pow <= result.degree() {
+                if *pow <= degree {
                     result.coeffs[*pow] -= coeff;
                 } else {
-                    upper_coeffs[*pow - result.degree() - 1] = -*coeff;
+                    upper_coeffs[*pow - degree - 1] = -*coeff;
                 }
             }
             result.coeffs.extend(upper_coeffs);
+            // The leading terms may have cancelled.
+            result.truncate_leading_zeros();
             result
         }
     }
@@ -558,29 +562,33 @@ impl<'a, F: Field> SubAssign<&'a Self> for DensePolynomial<F> {
 impl<'a, F: Field> SubAssign<&'a SparsePolynomial<F>> for DensePolynomial<F> {
     #[inline]
     fn sub_assign(&mut self, other: &'a SparsePolynomial<F>) {
-        if self.is_zero() {
+        if other.is_zero() {
+        } else if self.is_zero() {
             self.coeffs.truncate(0);
             self.coeffs.resize(other.degree() + 1, F::zero());
 
             for (i, coeff) in other.iter() {
                 self.coeffs[*i] = (*coeff).neg();
             }
-        } else if other.is_zero() {
         } else {
+            // The degree of `self`, read before any coefficient is modified.
+            let degree = self.degree();
             // If `other` has higher degree than `self`, create a dense vector
             // storing the upper coefficients of the subtraction
-            let mut upper_coeffs = match other.degree() > self.degree() {
-                true => vec![F::zero(); other.degree() - self.degree()],
+            let mut upper_coeffs = match other.degree() > degree {
+                true => vec![F::zero(); other.degree() - degree],
                 false => Vec::new(),
             };
             for (pow, coeff) in other.iter() {
-                if *pow <= self.degree() {
+                if *pow <= degree {
                     self.coeffs[*pow] -= coeff;
                 } else {
-                    upper_coeffs[*pow - self.degree() - 1] = -*coeff;
+                    upper_coeffs[*pow - degree - 1] = -*coeff;
                 }
             }
             self.coeffs.extend(upper_coeffs);
+            // The leading terms may have cancelled.
+            self.truncate_leading_zeros();
         }
     }
 }
